@@ -62,13 +62,20 @@ pub fn make_module() -> KMap {
     }
 
     macro_rules! bitwise_fn_positive_arg {
-        ($name:ident, $op:tt) => {
+        ($name:ident, $checked_op:ident, $overflow:expr) => {
             result.add_fn(stringify!($name), |ctx| {
                 let expected_error = "|Number, Number|";
 
                 match ctx.instance_and_args(is_number, expected_error)? {
                     (Number(a), [Number(b)]) if *b >= 0 => {
-                        Ok((i64::from(a) $op i64::from(b)).into())
+                        let a = i64::from(a);
+                        // Shifting by 64 bits or more shifts out all of the input's bits
+                        let overflow: fn(i64) -> i64 = $overflow;
+                        let result = u32::try_from(i64::from(b))
+                            .ok()
+                            .and_then(|b| a.$checked_op(b))
+                            .unwrap_or_else(|| overflow(a));
+                        Ok(result.into())
                     }
                     (instance, args) => {
                         unexpected_args_after_instance(expected_error, instance, args)
@@ -185,8 +192,8 @@ pub fn make_module() -> KMap {
     number_f64_fn!(recip);
     number_fn!(round);
 
-    bitwise_fn_positive_arg!(shift_left, <<);
-    bitwise_fn_positive_arg!(shift_right, >>);
+    bitwise_fn_positive_arg!(shift_left, checked_shl, |_| 0);
+    bitwise_fn_positive_arg!(shift_right, checked_shr, |a| if a < 0 { -1 } else { 0 });
 
     number_f64_fn!(sin);
     number_f64_fn!(sinh);
